@@ -104,7 +104,7 @@ def gen_program(rng, name, forced_widths):
         has_mux = nbits >= 16 and rng.random() < 0.45
         mux = None
         if has_mux:
-            l = rng.choice([2, 3, 4, 8])
+            l = rng.choice([2, 3, 4, 8, 8, 9, 16])
             g = pick_geometry(rng, nbits, l, used_plain)
             if g:
                 mux = Sig()
@@ -170,6 +170,12 @@ def gen_program(rng, name, forced_widths):
                 else:
                     q = (b - a) / 4
                     s.min, s.max = repr_float(a + q), repr_float(b - q)
+            elif not s.float and not s.is_mux and s.length == 1 and rng.random() < 0.25:
+                # a 1-bit signal with a factor/offset/range stays a plain bool (no physical accessors)
+                s.factor = rng.choice(["2", "0.5", "1"])
+                s.offset = rng.choice(["0", "1", "-1"])
+                if rng.random() < 0.5:
+                    s.min, s.max = "0", "1"
             elif not s.float and not s.is_mux and s.length >= 2 and rng.random() < 0.2:
                 # identity scale with a declared range equal to the raw range or narrower (<= 52 bits only)
                 if s.length <= 52 and rng.random() < 0.5:
@@ -185,7 +191,8 @@ def gen_program(rng, name, forced_widths):
                     clo, chi = max(lo, -(1 << 53)), min(hi, 1 << 53)
                     cand = {clo, chi, 0 if clo <= 0 <= chi else clo, min(chi, 1), min(chi, 2), rng.randrange(clo, chi + 1)}
                     vals = rng.sample(sorted(cand), min(k, len(cand)))
-                s.vds = [(v, "Val%s%d" % (chr(65 + i), abs(v) % 1000)) for i, v in enumerate(vals)]
+                s.vds = [(v, rng.choice(["Val%s%d", "Val %s %d", "V\u00e4l%s%d", "val-%s_%d"]) % (chr(65 + i), abs(v) % 1000))
+                         for i, v in enumerate(vals)]
                 rng.shuffle(s.vds)
             if rng.random() < 0.3:
                 if s.float:
